@@ -132,6 +132,8 @@ def rules(ck, P):
         loops = [n for n in ir.walk_nodes(b["body"]) if n.get("k") == "for"]
         okz = False
         why = "loop shape not recognised"
+        if len(loops) == 1 and zp and "[]" in ir.place_str(loops[0]["iter"]):
+            continue   # slice form: decided by comp.levels_rule (|slice)
         if len(loops) == 1 and zp:
             lp = loops[0]
             it = ir.place_str(lp["iter"])
